@@ -156,17 +156,19 @@ pub struct WlOpts {
     pub cfn_bias: u64,
     /// some test cases carry several misspelt expectation statuses (the command rejects them)
     pub bad_expectations: bool,
+    /// one workload in `tf_bias` that is not a template is a Terraform plan
+    pub tf_bias: u64,
 }
 
 impl Default for WlOpts {
     fn default() -> Self {
-        WlOpts { max_docs: 3, max_progs: 3, gen: GenOpts::default(), cfn_bias: 3, bad_expectations: false }
+        WlOpts { max_docs: 3, max_progs: 3, gen: GenOpts::default(), cfn_bias: 3, bad_expectations: false, tf_bias: 8 }
     }
 }
 
 pub fn gen_workload(r: &mut Rng, o: &WlOpts) -> Workload {
     let cfn = r.chance(1, o.cfn_bias.max(1));
-    let tf = !cfn && r.chance(1, 8);
+    let tf = !cfn && r.chance(1, o.tf_bias.max(1));
     let d0 = if cfn { doc::gen_cfn(r) } else if tf { doc::gen_tf(r) } else { doc::gen_doc(r) };
     let ndocs = 1 + r.usize(o.max_docs.max(1));
     let mut docs = vec![(d0.clone(), DocFmt::pick(r))];
